@@ -33,10 +33,13 @@ class ToyEnv:
 
 
 class ToyLearner:
-    def __init__(self, tag, mult=1, fp=None, fl=None, params_fail=False):
+    def __init__(self, tag, mult=1, fp=None, fl=None, params_fail=False, info=False, nocopy=False):
         self.tag, self.mult, self.fp, self.fl, self.params_fail = tag, mult, fp, fl, params_fail
+        self.info = info            # predict reports 100*tag+n through the process-global CobaContext.learning_info
         self.n = 0
         self.acc = 0
+        if nocopy:
+            self._schedule = (k for k in range(3))     # a generator: the object can be used but not deep-copied / pickled
 
     @property
     def params(self):
@@ -47,6 +50,8 @@ class ToyLearner:
     def predict(self, context, actions):
         if self.fp is not None and self.n == self.fp:
             raise ToyFail("TOYFAIL:lrn%d:predict" % self.tag)
+        if self.info:
+            CobaContext.learning_info["li"] = 100 * self.tag + self.n
         return context * self.mult + 7 * self.acc + self.n
 
     def learn(self, context, action, reward, probability, **kwargs):
@@ -57,9 +62,14 @@ class ToyLearner:
 
 
 class ToyEval:
-    def __init__(self, tag, seed=None, fail_at=None, learn=True, params_fail=False, skip_mult=None):
+    """mode 0: ignores CobaContext.learning_info; mode 1: clears it when the evaluation starts and moves it into every row
+    (what coba's evaluators do); mode 2: moves it into the rows without clearing first — such an evaluator is NOT
+    process-local clean, its rows depend on what earlier evaluations of the same process left behind"""
+
+    def __init__(self, tag, seed=None, fail_at=None, learn=True, params_fail=False, skip_mult=None, mode=0):
         self.tag, self.seed, self.fail_at, self.learn, self.params_fail = tag, seed, fail_at, learn, params_fail
         self.skip_mult = skip_mult      # learners with this `mult` legitimately get no rows at all (and are not touched)
+        self.mode = mode
 
     @property
     def params(self):
@@ -73,6 +83,9 @@ class ToyEval:
             raise ToyFail("TOYFAIL:val%d:evaluate" % self.tag)
         if self.skip_mult is not None and learner.mult == self.skip_mult:
             return
+        info = CobaContext.learning_info
+        if self.mode == 1:
+            info.clear()
         k = 0
         for interaction in environment.read():
             x = interaction["context"]
@@ -80,7 +93,13 @@ class ToyEval:
             n = learner.n
             if self.learn:
                 learner.learn(x, 0, 0, None)
-            yield {"x": x, "p": p, "n": n, "seed": seed}
+            row = {"x": x, "p": p, "n": n, "seed": seed}
+            if self.mode:
+                v = info.pop("li", None)
+                info.clear()
+                if v is not None:
+                    row["li"] = v
+            yield row
             k += 1
             if k == self.fail_at:
                 raise ToyFail("TOYFAIL:val%d:evaluate" % self.tag)
